@@ -60,6 +60,9 @@ def _attr_may_be_none(prog, cls, attr, initialisers=None):
                 if st and fa.cfg.every_exit_path_passes(fa.cfg.entry, st):
                     init_sets = True
     for k in [cls] + prog.subclasses(cls) + prog.mro(cls):
+        v0 = k.class_attrs.get(attr)
+        if v0 is not None and _is_none(v0) and not init_sets:
+            return True  # the class-level default `attr = None`
         for m in list(k.methods.values()) + list(getattr(k, 'setters', {}).values()):
             if init_sets and m.name == "__init__":
                 continue
